@@ -126,6 +126,10 @@ func runC16(tier string, seed uint64) {
 		newTwin("base-fallback-unrelated", "bases", bases),
 		newTwin("base-fallback-no-dot", "bases", bases), // a host that merely ends in the text of a base
 		newTwin("base-fallback-empty-label", "bases", bases),
+		// dots around "<label>.<base>" make it another host: no "<single label>.<base>", so path-style
+		newTwin("base-fallback-root-dot", "bases", bases),
+		newTwin("base-fallback-leading-dot", "bases", bases),
+		newTwin("base-fallback-two-root-dots", "bases", bases[:1]),
 		// one base is a suffix of another: the longer one has to be reached whatever the order
 		newTwin("base-nested-short-first", "bases", []string{"example.com", "s3.example.com"}),
 		newTwin("base-nested-long-first", "bases", []string{"s3.example.com", "example.com"}),
@@ -290,6 +294,12 @@ func runC16(tier string, seed uint64) {
 				host = l.bucket + "s3.example.com"
 			case "base-fallback-empty-label":
 				host = ".s3.example.com"
+			case "base-fallback-root-dot":
+				host = l.bucket + ".s3.example.com."
+			case "base-fallback-leading-dot":
+				host = "." + l.bucket + ".s3.example.com"
+			case "base-fallback-two-root-dots":
+				host = l.bucket + ".s3.example.com.."
 			case "path-extra-leading-slash":
 				path = l.pathStyle("//", "")
 			case "path-trailing-slash":
